@@ -145,15 +145,44 @@ def run(ctx):
             continue
         bad = []
         n_src = 0
+
+        def is_prepare(fn):
+            return (isinstance(fn, ast.Name) and "LOGICAL_WRITERS" in " ".join(norm(s_) for s_ in assigned_values(wu9.node, fn.id))) or "LOGICAL_WRITERS" in norm(fn)
+
+        seen9 = set()
+
+        def from_datum(name_node, depth=6):
+            """the name holds the datum, the value half of a hint, or what a preparer made of one of those (a value that
+            only depends on itself through the loop is judged by its other sources)"""
+            if depth == 0:
+                return False
+            srcs_ = value_sources(a, wu9, name_node)
+            if not srcs_:
+                return False
+            for k_, v_ in srcs_:
+                if k_ == "param" and v_.arg == D9:
+                    continue
+                if k_ == "unpack":
+                    continue
+                if k_ == "expr" and id(v_) in seen9:
+                    continue
+                if k_ == "expr" and isinstance(v_, ast.Call) and is_prepare(v_.func):
+                    seen9.add(id(v_))
+                    if any(isinstance(x, ast.Name) and from_datum(x, depth - 1) for x in v_.args):
+                        continue
+                    return False
+                if k_ == "expr" and isinstance(v_, ast.Subscript) and isinstance(v_.value, ast.Name) and v_.value.id == D9 and isinstance(v_.slice, ast.Constant) and v_.slice.value == 1:
+                    continue
+                return False
+            return True
+
         for k, v in value_sources(a, wu9, arg):
             n_src += 1
             if k == "param" and v.arg == D9:
                 continue
             if k == "unpack":
                 continue  # name, datum = datum (hint): the origin of the tuple is judged by C09.R1
-            if k == "expr" and isinstance(v, ast.Call) and not isinstance(v.func, ast.Attribute) and any(isinstance(x, ast.Name) and x.id == D9 for x in v.args) and "LOGICAL_WRITERS" in " ".join(norm(s_) for s_ in assigned_values(wu9.node, v.func.id)) if (k == "expr" and isinstance(v, ast.Call) and isinstance(v.func, ast.Name)) else False:
-                continue
-            if k == "expr" and isinstance(v, ast.Call) and "LOGICAL_WRITERS" in norm(v.func):
+            if k == "expr" and isinstance(v, ast.Call) and is_prepare(v.func) and (seen9.add(id(v)) or True) and any(isinstance(x, ast.Name) and from_datum(x) for x in v.args):
                 continue
             if k == "expr" and isinstance(v, ast.Subscript) and isinstance(v.value, ast.Name) and v.value.id == D9 and isinstance(v.slice, ast.Constant) and v.slice.value == 1:
                 continue  # datum[1] of a hint tuple
@@ -164,6 +193,7 @@ def run(ctx):
             ctx.check("C02.R9", "write_union: the value written under the chosen branch is the caller's", not bad, wu9.where(bad[0][1]) if bad and hasattr(bad[0][1], "lineno") else wu9.where(c), f"write_union: {arg.id} can be `{norm(bad[0][1])[:80]}`" if bad else "", "the value is rebuilt before it is written (entries dropped, copied or converted) whatever branch was chosen: under a branch where those entries are data (a map that has that key) other bytes than the datum's encoding are written")
 
     # ---- shared ----
+    ctx.borrow("C01", {"C01.R14": "C02.R11"}, "the encoding of a conforming datum exists only if the writer and the encoder primitive for its type accept it: a range or sanity check that also hits a legal value (the ends of the int range, the float infinities) leaves that datum without an encoding")
     ctx.borrow("C10", {"C10.R8": "C02.R10"}, "the encoders compute lengths with len() and write the object as it is: exact for the Python types the validators accept today (bytes, bytearray, str, ..); a validator that lets another type through (a memoryview counts items, not bytes) makes the writer emit a length prefix that is not the number of bytes that follow")
     ctx.borrow("C10", {"C10.R2": "C02.R8"}, "an un-hinted union value is encoded under the first branch the validators accept: a container validator that accepts without consulting every element selects a branch the value does not conform to, and the bytes are not the encoding of the datum under a conforming branch")
 
